@@ -31,6 +31,21 @@ package ls
 // utf16Len: one unit per rune, two for runes above U+FFFF; never more units than bytes.
 //@ spec func u16(s string, from int) int decreases len(s) - from = from >= len(s) ? 0 : (pure0("utf8.DecodeRuneInString", s[from:]) > 65535 ? 2 : 1) + u16(s, from + pure1("utf8.DecodeRuneInString", s[from:]))
 
+// id.Location: the LSP range of an identifier. Both ends are on the node's line (the last line
+// start at or before its offset); the start column is the number of UTF-16 code units between the
+// line start and the node, the end column adds the units of the identifier itself.
+//@ pred lineStarts(lines []int) = len(lines) > 0 && lines[0] == 0 && forall p in 0..len(lines) :: forall q in p+1..len(lines) :: lines[p] < lines[q]
+
+//@ func id.Location
+//@   requires id.Node != nil && id.Node.tree != nil && lineStarts(id.Node.tree.lines)
+//@   requires 0 <= id.Node.offset && id.Node.offset <= id.Node.endoffset && id.Node.endoffset <= len(id.Node.tree.content)
+//@   requires len(id.Node.tree.content) < 4294967296 && len(id.Node.tree.lines) <= 4294967296
+//@   ensures result.Range.Start.Line == result.Range.End.Line
+//@   ensures result.Range.Start.Line < len(id.Node.tree.lines) && id.Node.tree.lines[result.Range.Start.Line] <= id.Node.offset
+//@   ensures result.Range.Start.Line + 1 < len(id.Node.tree.lines) ==> id.Node.offset < id.Node.tree.lines[result.Range.Start.Line + 1]
+//@   ensures result.Range.Start.Character == u16(id.Node.tree.content[id.Node.tree.lines[result.Range.Start.Line]:id.Node.offset], 0)
+//@   ensures result.Range.End.Character == result.Range.Start.Character + u16(id.Node.tree.content[id.Node.offset:id.Node.endoffset], 0)
+
 //@ func utf16Len
 //@   ensures result == u16(s, 0)
 //@   ensures 0 <= result && result <= len(s)
